@@ -112,7 +112,8 @@ class EnvProbe:
     name: str
 
     def filter_context(self, context):
-        return {k: v for k, v in context.items() if k in ('shared', self.name)}
+        # a filter that TRANSFORMS as well as narrows (not idempotent): applying it twice, or not at all, is visible
+        return {**{k: v for k, v in context.items() if k in ('shared', self.name)}, 'applied': context.get('applied', 0) + 1}
 
     def run(self):
         import multiprocessing
@@ -120,6 +121,20 @@ class EnvProbe:
         return dict(pid=os.getpid(), ppid=os.getppid(), mark=MARK, context=dict(self.context),
                     main_thread=threading.current_thread() is threading.main_thread(),
                     proc_name=multiprocessing.current_process().name)
+
+
+@labtech.task(cache=None)
+class ThreadProbe:
+    name: str
+    secs: float = 0.0
+    deps: tuple = ()
+
+    def run(self):
+        import threading
+        import time
+        t0 = time.monotonic()
+        time.sleep(self.secs)
+        return dict(pid=os.getpid(), thread=threading.get_ident(), t0=t0, t1=time.monotonic())
 
 
 # ---- a task whose outcome depends on the Lab context (for multi-call histories over the SAME task objects)
@@ -139,7 +154,8 @@ class K2:          # cacheable environment probe
     name: str
 
     def filter_context(self, context):
-        return {k: v for k, v in context.items() if k in ('shared', self.name)}
+        # a filter that TRANSFORMS as well as narrows (not idempotent): applying it twice, or not at all, is visible
+        return {**{k: v for k, v in context.items() if k in ('shared', self.name)}, 'applied': context.get('applied', 0) + 1}
 
     def run(self):
         return dict(pid=os.getpid(), context=dict(self.context))
